@@ -32,6 +32,27 @@ CHECKS['C05'] = {
     'explanation': 'From<u16>/From<CoapOption>, TryFrom<usize>/From<ContentFormat>, ObserveOption pair, From<u8>/From<MessageClass>, Header::get_type/set_type verified against registry spec functions; one-to-one lemmas.',
 }
 
+T_RT = 'the round-trip statements are lemmas over the contracts enc_post/dec_post (spec/pktview.rs) that units enc and dec prove on the real functions; the lemma unit itself contains no executable code'
+CHECKS['C01'] = {
+    'level': 'proof',
+    'units': ['enc', 'dec', 'rt', 'acc'],
+    'kani': [],
+    'technique': 'contract-based deductive verification (Verus): encoder and decoder bodies against RFC 7252 spec functions, whole-view contracts on the assembling API, round trip as a lemma over the two contracts',
+    'level_text': 'Unbounded proof: to_bytes* returns exactly wire(m) for the message m a Packet denotes (enc), from_bytes returns exactly parse(b) (dec), parse(wire(m)) == m for every well-formed m incl. all extension thresholds, repeated and cleared options and the marker (rt, lemma), and every mutator of the assembling API (header bit setters, set_token, add/set/clear option) changes exactly its field of the abstract view (acc), so the result does not depend on call order. Overflow freedom is proved, so overflow-checks on/off cannot differ.',
+    'level_note': 'Trusted: Verus/Z3/vstd; R1 LinkedList as VecDeque; std wrappers (to_vec, be bytes, entry API, capacity model/raw copy); messages with token 0-8 bytes set through set_token, option values <= 65804 bytes, canonical codes; version argument 0-3. default-features/no-default/udp differ only in MAX_SIZE, the contracts are stated for an arbitrary limit.',
+    'trusted': [T_VERUS, T_R1, T_TOVEC, T_BE, T_ENTRY, T_SLICE, T_ARITH, T_RT, 'see C04 for the capacity model'],
+    'explanation': 'units enc + dec + rt + acc',
+}
+CHECKS['C02'] = {
+    'level': 'proof',
+    'units': ['dec', 'enc', 'rt'],
+    'kani': [],
+    'technique': 'contract-based deductive verification (Verus): decoder and encoder contracts on the real functions plus the lemma wire(parse(b)) == canon(b)',
+    'level_text': 'Unbounded proof over all byte strings: whenever from_bytes accepts b it returns parse(b) (dec); to_bytes_unlimited of that packet is wire(parse(b)) (enc); and wire(parse(b)) == canon(b), where canon drops only a lone trailing marker and whatever follows the options of a 0.00 message (rt: theorem_c02_*), with injectivity as a corollary.',
+    'level_note': 'Trusted: as C01; datagrams up to 2^28 bytes.',
+    'trusted': [T_VERUS, T_R1, T_TOVEC, T_BE, T_ENTRY, T_SLICE, T_ARITH, T_RT],
+    'explanation': 'units dec + enc + rt',
+}
 T_CAP = 'R6/R7 capacity model (assumed std guarantees): Vec::with_capacity(n)/reserve(n) give capacity >= len+n and <= isize::MAX without changing contents; ptr::copy into spare capacity followed by set_len appends the copied bytes. The memory-safety condition of each unsafe block (source lengths, offsets, new length <= capacity, no uninitialised byte below the new length) is the PRECONDITION of the stub and is proved at each of the three call sites from the real argument expressions'
 T_EQ = 'derived PartialEq on MessageClass/RequestType/ResponseType is structural equality (PartialEqSpecImpl, derived bodies checked by Verus)'
 CHECKS['C04'] = {
